@@ -27,7 +27,10 @@
 (*   zs: sign of z relative to the product                                 *)
 (* "sum" shapes <<"sum", n, pat, mag, m>> (add_3sum n = 3, add_4sum n = 4):*)
 (*   pat: rand, cancel2 (y ~ -x), cancel3 (z ~ -(x+y)), cancelall (n = 4:  *)
-(*        w ~ -(x+y+z)), ladder (non-overlapping, gaps of p), ladderhalf   *)
+(*        w ~ -(x+y+z)), cancelpairs (n = 4: a, b about p binades apart    *)
+(*        and their negatives displaced by a few ulps: the sum lives in    *)
+(*        the second-order error terms), ladder (non-overlapping, gaps of  *)
+(*        p), ladderhalf                                                   *)
 (*        (each exactly half an ulp of the previous), tie (y half an ulp   *)
 (*        of x, the rest multiples of the ulp), tieup / tiedown (a tie     *)
 (*        displaced by a tiny last operand), pow2edge (the sum falls just  *)
@@ -56,7 +59,7 @@ PSOK(t) == t[5] \in {"zero", "negzero", "cancel0", "tie", "tieeps", "zmaxhalf"} 
 
 SumPat3 == {"rand", "cancel2", "cancel3", "ladder", "ladderhalf", "tie", "tieup", "tiedown", "pow2edge",
             "equal", "zeros", "overlap"}
-SumPat4 == SumPat3 \cup {"cancelall"}
+SumPat4 == SumPat3 \cup {"cancelall", "cancelpairs"}
 Mag == {"sub", "low", "mid", "hi"}
 Sum == {<<"sum", 3, pat, mag, m>> : pat \in SumPat3, mag \in Mag, m \in Mant}
        \cup {<<"sum", 4, pat, mag, m>> : pat \in SumPat4, mag \in Mag, m \in Mant}
